@@ -660,7 +660,9 @@ def _unpack_annotated_serializable_type(
             spec.origin_type
         ],
     )
-    unpacker = UnpackerRegistry.get(spec.copy(type=value_type))
+    unpacker = UnpackerRegistry.get(
+        spec.copy(type=value_type, could_be_none=True)
+    )
     field_type = spec.builder.get_type_name_identifier(spec.type)
     return f"{field_type}._deserialize({unpacker})"
 
